@@ -491,6 +491,8 @@ Definition respond_read_index (r : raft) (req : message) (readIndex : N) : res r
 
 (* sendMsgReadIndexResponse *)
 Definition send_msg_read_index_response (r : raft) (m : message) : res raft :=
+  (* only one voting member (the leader): no quorum round is needed *)
+  if is_singleton (t_config (r_trk r)) then respond_read_index r m (l_committed (r_log r)) else
   match ro_option (r_read_only r) with
   | ReadOnlySafe =>
       let ro := ro_add_request (r_read_only r) (l_committed (r_log r)) m in
@@ -579,9 +581,7 @@ Definition step_leader (r : raft) (m : message) : res (raft * err) :=
           end
       end
   | MsgReadIndex =>
-      if is_singleton (t_config (r_trk r)) then
-        do r <- respond_read_index r m (l_committed (r_log r)); Ok (r, ENone)
-      else if negb (committed_entry_in_current_term r) then
+      if negb (committed_entry_in_current_term r) then
         Ok (set_r_pending_read_index r (r_pending_read_index r ++ [m]), ENone)
       else
         do r <- send_msg_read_index_response r m; Ok (r, ENone)
@@ -690,14 +690,22 @@ Definition step_candidate (r : raft) (m : message) : res (raft * err) :=
   | MsgTimeoutNow => Ok (r, ENone)
   | t =>
       if msg_type_eqb t myResp then
+        (* a granted pre-vote carries Term+1; any other grant answers an earlier pre-campaign *)
+        if state_type_eqb (r_state r) StatePreCandidate && negb (m_reject m) &&
+           negb (N.eqb (m_term m) (r_term r + 1)) then Ok (r, ENone) else
         let '(r, res) := poll r (m_from m) (negb (m_reject m)) in
         match res with
         | VoteWon =>
             if state_type_eqb (r_state r) StatePreCandidate then
               do r <- campaign r CampaignElection; Ok (r, ENone)
             else
-              do r <- become_leader r;
-              do r <- bcast_append r; Ok (r, ENone)
+              (* lead only once the own vote is recorded, i.e. term and vote are durable *)
+              match alookup (t_votes (r_trk r)) (r_id r) with
+              | Some true =>
+                  do r <- become_leader r;
+                  do r <- bcast_append r; Ok (r, ENone)
+              | _ => Ok (r, ENone)
+              end
         | VoteLost => do r <- become_follower r (r_term r) NoneId; Ok (r, ENone)
         | VotePending => Ok (r, ENone)
         end
